@@ -67,11 +67,36 @@ def self_type(name):
     return None
 
 
+CRATE_MODS = ('functions', 'util', 'de', 'ser', 'parser', 'number', 'value', 'builder', 'iterator', 'jentry', 'keypath', 'jsonpath', 'from',
+              'constants', 'lazy_value', 'error', 'selector', 'path')
+
+
+def local_tail(c):
+    """For a crate-local path (first segment is one of the crate's modules): the path with its leading module segments removed
+    ('functions::is_jsonb' -> 'is_jsonb', "jsonpath::selector::Selector::<'a>::select" -> "Selector::<'a>::select"); else None.
+    A private item keeps this tail when it is moved to another module of the crate."""
+    segs = c.split('::')
+    if not segs or segs[0] not in CRATE_MODS:
+        return None
+    i = 0
+    while i < len(segs) - 1 and segs[i] in CRATE_MODS:
+        i += 1
+    return '::'.join(segs[i:])
+
+
 def called(name, *suffixes):
     c = canon(name)
+    ct = None
     for s in suffixes:
         if c == s or c.endswith('::' + s):
             return True
+        # the same crate-local item after a move to another module
+        st = local_tail(s)
+        if st is not None:
+            if ct is None:
+                ct = local_tail(c) or ''
+            if ct and ct == st:
+                return True
     return False
 
 
